@@ -196,6 +196,7 @@ func EpochFactory(cidr string, grace uint64, class string) Factory {
 const EpochPeriod = time.Hour
 
 type distPool struct {
+	cx     context.Context // context of the next calls (nil = Background), see SetContext
 	cfg    allocator.DistributedConfig
 	st     *MemStore
 	a      *allocator.DistributedAllocator
@@ -223,12 +224,12 @@ func (d *distPool) start() error {
 }
 
 func (d *distPool) Alloc(sub string) (string, error) {
-	p, err := d.a.Allocate(bg, d.tr.ID(sub))
+	p, err := d.a.Allocate(ctxOr(d.cx), d.tr.ID(sub))
 	d.st.Flush(d.echo)
 	return cidrStr(p), err
 }
 func (d *distPool) Release(sub string) error {
-	err := d.a.Release(bg, d.tr.ID(sub))
+	err := d.a.Release(ctxOr(d.cx), d.tr.ID(sub))
 	d.st.Flush(d.echo)
 	return err
 }
@@ -256,7 +257,7 @@ func (d *distPool) Close() {
 	}
 }
 func (d *distPool) Renew(sub string) error {
-	err := d.a.Renew(bg, d.tr.ID(sub))
+	err := d.a.Renew(ctxOr(d.cx), d.tr.ID(sub))
 	d.st.Flush(d.echo)
 	return err
 }
@@ -347,6 +348,7 @@ func DistFactory(cidr string, unit int, lease bool, grace int, echo bool, class 
 // ---------------------------------------------------------------- allocator.LocalAllocator / PoolAllocator
 
 type localPool struct {
+	cx context.Context
 	a  *allocator.LocalAllocator
 	tr *Translator
 }
@@ -354,10 +356,12 @@ type localPool struct {
 const localPoolID = "lp"
 
 func (l *localPool) Alloc(sub string) (string, error) {
-	p, err := l.a.AllocateWithMAC(bg, l.tr.ID(sub), localPoolID, MacOf(sub).String())
+	p, err := l.a.AllocateWithMAC(ctxOr(l.cx), l.tr.ID(sub), localPoolID, MacOf(sub).String())
 	return cidrStr(p), err
 }
-func (l *localPool) Release(sub string) error { return l.a.Release(bg, l.tr.ID(sub), localPoolID) }
+func (l *localPool) Release(sub string) error {
+	return l.a.Release(ctxOr(l.cx), l.tr.ID(sub), localPoolID)
+}
 func (l *localPool) Lookup(sub string) (string, bool) {
 	p, _ := l.a.GetPool(localPoolID)
 	return cidrStr(p.Lookup(l.tr.ID(sub))), true
@@ -416,6 +420,7 @@ func LocalFactory(cidr string, unit int, class string) Factory {
 }
 
 type poolAllocPool struct {
+	cx    context.Context
 	p     *allocator.PoolAllocator
 	st    *FailingAllocStore
 	inner *allocator.MemoryAllocationStore
@@ -423,10 +428,10 @@ type poolAllocPool struct {
 }
 
 func (p *poolAllocPool) Alloc(sub string) (string, error) {
-	n, err := p.p.Allocate(bg, p.tr.ID(sub), MacOf(sub).String())
+	n, err := p.p.Allocate(ctxOr(p.cx), p.tr.ID(sub), MacOf(sub).String())
 	return cidrStr(n), err
 }
-func (p *poolAllocPool) Release(sub string) error { return p.p.Release(bg, p.tr.ID(sub)) }
+func (p *poolAllocPool) Release(sub string) error { return p.p.Release(ctxOr(p.cx), p.tr.ID(sub)) }
 func (p *poolAllocPool) Lookup(sub string) (string, bool) {
 	return cidrStr(p.p.Lookup(p.tr.ID(sub))), true
 }
@@ -727,7 +732,7 @@ func EpochConfigOK(cidr string, grace uint64) bool {
 
 // AllocAlt: the DHCP path of the distributed allocator (AllocateWithMAC).
 func (d *distPool) AllocAlt(sub string) (string, error) {
-	p, err := d.a.AllocateWithMAC(bg, d.tr.ID(sub), MacOf(sub))
+	p, err := d.a.AllocateWithMAC(ctxOr(d.cx), d.tr.ID(sub), MacOf(sub))
 	d.st.Flush(d.echo)
 	return cidrStr(p), err
 }
@@ -740,7 +745,7 @@ func (d *distPool) Store() *MemStore { return d.st }
 
 // AllocAlt: LocalAllocator.Allocate (no MAC), the other method of the Allocator interface.
 func (l *localPool) AllocAlt(sub string) (string, error) {
-	p, err := l.a.Allocate(bg, l.tr.ID(sub), localPoolID)
+	p, err := l.a.Allocate(ctxOr(l.cx), l.tr.ID(sub), localPoolID)
 	return cidrStr(p), err
 }
 func (l *localPool) ReleaseAlt(sub string) error { return l.Release(sub) }
@@ -748,7 +753,7 @@ func (l *localPool) ReleaseAlt(sub string) error { return l.Release(sub) }
 // AllocAlt: AllocateWithOptions with DUID and IAID, exactly what the DHCPv6 server calls.
 func (p *poolAllocPool) AllocAlt(sub string) (string, error) {
 	_, n := SubNum(sub)
-	ip, err := p.p.AllocateWithOptions(bg, allocator.AllocateOptions{SubscriberID: p.tr.ID(sub), DUID: DUIDOf(sub), IAID: uint32(n + 1)})
+	ip, err := p.p.AllocateWithOptions(ctxOr(p.cx), allocator.AllocateOptions{SubscriberID: p.tr.ID(sub), DUID: DUIDOf(sub), IAID: uint32(n + 1)})
 	return cidrStr(ip), err
 }
 func (p *poolAllocPool) ReleaseAlt(sub string) error { return p.Release(sub) }
@@ -823,3 +828,20 @@ func (p *peerPool) ReleaseAlt(sub string) error {
 	}
 	return nil
 }
+
+// ---------------------------------------------------------------- caller contexts
+
+// CtxSetter is implemented by adapters whose implementation takes the caller's context: SetContext selects the
+// context of the following calls (nil = context.Background()).
+type CtxSetter interface{ SetContext(ctx context.Context) }
+
+func ctxOr(c context.Context) context.Context {
+	if c == nil {
+		return bg
+	}
+	return c
+}
+
+func (d *distPool) SetContext(c context.Context)      { d.cx = c }
+func (l *localPool) SetContext(c context.Context)     { l.cx = c }
+func (p *poolAllocPool) SetContext(c context.Context) { p.cx = c }
